@@ -5,7 +5,7 @@
    post-processing.  px_hits_of files  is the declarative list of all search hits with their enclosing
    run and spectrum, in document order. *)
 From Coq Require Import Sorted.
-From Mokaverif Require Import Model.Base Model.Pepxml Proofs.PepxmlP.
+From Mokaverif Require Import Model.Base Model.Pepxml Model.PepxmlPost Proofs.PepxmlP Proofs.PepxmlPostP.
 Open Scope Z_scope.
 
 (* ---- which inputs are accepted: exactly the well-formed ones (every required attribute present,
@@ -117,6 +117,293 @@ Proof. exact px_illegal_iff. Qed.
 Print Assumptions C20_illegal_names.
 
 (* ====================================================================== *)
+(* R2.20 — the reader options and the returned table (Model/PepxmlPost.v)  *)
+(* ====================================================================== *)
+(* px_table num lg md mz rp sfx excl bin to_df rows  models what read_pepxml does with the parsed rows:
+   exclude_features = excl (after tuplize), open_modification_bin_size = bin, to_df.  The six leading
+   arguments are the floating-point oracles: float(text), log10, the mass difference, the m/z difference,
+   the mantissa/exponent of repr(x), the text of the bin centre.  EVERY theorem below holds for EVERY
+   choice of them: nothing about column names, order, roles, dtypes, which columns are transformed as a
+   whole, the one-hot columns or the errors depends on how the floating-point unit rounds.
+
+   px_read_table ... prefix files excl bin to_df  =  px_read, then px_table. *)
+(* ---- column names and their order: a function of the parsed rows alone; the same for every option ---- *)
+Theorem C20_table_columns : forall num lg md mz rp sfx excl bin to_df rows out,
+  px_table num lg md mz rp sfx excl bin to_df rows = Ok out ->
+  map c_name (o_cols out) = px_column_names rows.
+Proof. exact pxp_table_names. Qed.
+Print Assumptions C20_table_columns.
+
+(* parsed columns: the nine keys of the parser first, then every other key (optional attributes, search
+   scores) in order of first appearance over the records in document order *)
+Theorem C20_parsed_names : forall rows,
+  rows <> [] -> px_parsed_names rows = px_META9 ++ px_dedup_from px_META9 (flat_map px_extra_keys rows).
+Proof. exact pxp_parsed_names_eq. Qed.
+Print Assumptions C20_parsed_names.
+
+Theorem C20_parsed_names_once : forall rows, NoDup (px_parsed_names rows).
+Proof. exact pxp_parsed_names_nodup. Qed.
+Print Assumptions C20_parsed_names_once.
+
+Theorem C20_parsed_names_in : forall rows n,
+  In n (px_parsed_names rows) <-> exists p, In p rows /\ In n (px_row_keys p).
+Proof. exact pxp_parsed_names_in. Qed.
+Print Assumptions C20_parsed_names_in.
+
+Theorem C20_parsed_names_order : forall rows l1 x l2 y,
+  flat_map px_row_keys rows = l1 ++ x :: l2 -> ~ In x l1 -> ~ In y l1 ->
+  exists d1 d2, px_parsed_names rows = d1 ++ x :: d2 /\ ~ In x d1 /\ ~ In y d1.
+Proof. exact pxp_parsed_names_order. Qed.
+Print Assumptions C20_parsed_names_order.
+
+(* all column names distinct, unless a search score is named like a derived column (known finding) *)
+Theorem C20_columns_distinct : forall rows, px_no_collision rows -> NoDup (px_column_names rows).
+Proof. exact pxp_column_names_nodup. Qed.
+Print Assumptions C20_columns_distinct.
+
+Theorem C20_charge_name_inj : forall a b, px_charge_name a = px_charge_name b -> a = b.
+Proof. exact pxp_charge_name_inj. Qed.
+Print Assumptions C20_charge_name_inj.
+
+(* ---- roles ---- *)
+Theorem C20_roles : forall num lg md mz rp sfx excl bin to_df rows out c,
+  px_table num lg md mz rp sfx excl bin to_df rows = Ok out -> In c (o_cols out) ->
+  (c_role c = RFeature <-> ~ In (c_name c) px_META9 /\ ~ In (c_name c) excl) /\
+  (c_role c = RFeature -> c_kind c = KFloat /\ length (c_cells c) = length rows).
+Proof. exact pxp_roles. Qed.
+Print Assumptions C20_roles.
+
+(* the nine metadata columns come first, in the parser's order, with these dtypes and cells *)
+Theorem C20_meta_first : forall num lg md mz rp sfx excl bin to_df r0 rest out,
+  px_table num lg md mz rp sfx excl bin to_df (r0 :: rest) = Ok out ->
+  exists tail, o_cols out = px_meta_cols md sfx bin (px_md_lo md r0 rest) (px_md_hi md r0 rest) (r0 :: rest) ++ tail.
+Proof. exact pxp_meta_first. Qed.
+Print Assumptions C20_meta_first.
+
+(* a column that is no feature is returned as parsed (dtype and cells) *)
+Theorem C20_meta_column : forall num lg rp excl p,
+  px_is_feature excl (pc_name p) = false ->
+  px_log_features num lg rp excl p
+  = Ok {| c_name := pc_name p; c_kind := pc_kind p; c_role := RMeta; c_logged := false; c_cells := pc_cells p |}.
+Proof. exact pxp_logf_meta. Qed.
+Print Assumptions C20_meta_column.
+
+(* a feature column is a float column of as many numbers as there are rows; a bool column becomes 0/1 *)
+Theorem C20_feature_column : forall num lg rp excl p c,
+  px_is_feature excl (pc_name p) = true -> px_log_features num lg rp excl p = Ok c ->
+  c_name c = pc_name p /\ c_role c = RFeature /\ c_kind c = KFloat /\
+  length (c_cells c) = length (pc_cells p) /\
+  (pc_kind p = KBool -> c_logged c = false /\ c_cells c = map px_bool_to_num (pc_cells p)) /\
+  (pc_kind p <> KBool ->
+     Forall px_numeric (c_cells c) /\
+     exists vs, px_mapM (px_view num rp) (pc_cells p) = Ok vs /\
+                px_transform lg vs = Ok (c_logged c, c_cells c)).
+Proof. exact pxp_logf_feature. Qed.
+Print Assumptions C20_feature_column.
+
+(* ---- search scores ---- *)
+Theorem C20_score_is_feature : forall num lg md mz rp sfx excl bin to_df rows out p n t,
+  px_table num lg md mz rp sfx excl bin to_df rows = Ok out ->
+  In p rows -> In (n, t) (p_scores p) -> ~ In n px_RESERVED12 -> ~ In n excl ->
+  exists c, In c (o_cols out) /\ c_name c = n /\ c_role c = RFeature /\ c_kind c = KFloat /\
+            Forall px_numeric (c_cells c) /\ length (c_cells c) = length rows /\
+            px_log_features num lg rp excl
+              {| pc_name := n; pc_kind := KText; pc_cells := map (px_score_cell n) rows |} = Ok c.
+Proof. exact pxp_score_feature. Qed.
+Print Assumptions C20_score_is_feature.
+
+Theorem C20_excluded_keeps_text : forall num lg md mz rp sfx excl bin to_df rows out p n t,
+  px_table num lg md mz rp sfx excl bin to_df rows = Ok out ->
+  In p rows -> In (n, t) (p_scores p) -> ~ In n px_RESERVED12 -> In n excl ->
+  In {| c_name := n; c_kind := KText; c_role := RMeta; c_logged := false; c_cells := map (px_score_cell n) rows |}
+     (o_cols out).
+Proof. exact pxp_score_excluded. Qed.
+Print Assumptions C20_excluded_keeps_text.
+
+(* ---- charge one-hot columns ---- *)
+Theorem C20_charges_sorted : forall rows, StronglySorted Z.lt (px_charges rows).
+Proof. exact pxp_charges_sorted. Qed.
+Print Assumptions C20_charges_sorted.
+
+Theorem C20_charges_in : forall rows c, In c (px_charges rows) <-> exists p, In p rows /\ p_charge p = c.
+Proof. exact pxp_charges_in. Qed.
+Print Assumptions C20_charges_in.
+
+Theorem C20_charge_columns : forall num lg md mz rp sfx excl bin to_df rows out c,
+  px_table num lg md mz rp sfx excl bin to_df rows = Ok out -> In c (px_charges rows) ->
+  (~ In (px_charge_name c) excl ->
+     In {| c_name := px_charge_name c; c_kind := KFloat; c_role := RFeature; c_logged := false;
+           c_cells := map (fun p => CNum (if p_charge p =? c then 1 else 0)) rows |} (o_cols out)) /\
+  (In (px_charge_name c) excl ->
+     In {| c_name := px_charge_name c; c_kind := KBool; c_role := RMeta; c_logged := false;
+           c_cells := map (fun p => CBool (p_charge p =? c)) rows |} (o_cols out)).
+Proof. exact pxp_charge_columns. Qed.
+Print Assumptions C20_charge_columns.
+
+Theorem C20_onehot_row : forall rows p,
+  In p rows ->
+  exists a b, px_charges rows = a ++ p_charge p :: b /\
+    map (fun c => p_charge p =? c) (px_charges rows) = map (fun _ => false) a ++ true :: map (fun _ => false) b.
+Proof. exact pxp_onehot_row. Qed.
+Print Assumptions C20_onehot_row.
+
+(* ---- mass_diff / abs_mz_diff: from exp_mass, calc_mass, charge of the same row ---- *)
+Theorem C20_mass_columns : forall num lg md mz rp sfx excl bin to_df rows out,
+  px_table num lg md mz rp sfx excl bin to_df rows = Ok out -> rows <> [] ->
+  (exists c, In c (o_cols out) /\ px_log_features num lg rp excl (px_mdiff_pre md rows) = Ok c) /\
+  (exists c, In c (o_cols out) /\ px_log_features num lg rp excl (px_mzdiff_pre mz rows) = Ok c) /\
+  (In px_N_MDIFF excl ->
+     In {| c_name := px_N_MDIFF; c_kind := KFloat; c_role := RMeta; c_logged := false;
+           c_cells := pc_cells (px_mdiff_pre md rows) |} (o_cols out)) /\
+  (In px_N_MZDIFF excl ->
+     In {| c_name := px_N_MZDIFF; c_kind := KFloat; c_role := RMeta; c_logged := false;
+           c_cells := pc_cells (px_mzdiff_pre mz rows) |} (o_cols out)).
+Proof. exact pxp_mass_columns. Qed.
+Print Assumptions C20_mass_columns.
+
+(* ---- the peptide column and the open-modification suffix ---- *)
+Theorem C20_peptide_column : forall num lg md mz rp sfx excl bin to_df r0 rest out,
+  px_table num lg md mz rp sfx excl bin to_df (r0 :: rest) = Ok out ->
+  In {| c_name := px_N_PEPTIDE; c_kind := KText; c_role := RMeta; c_logged := false;
+        c_cells := map (fun p => CText (px_pep_out md sfx bin (px_md_lo md r0 rest) (px_md_hi md r0 rest) p)) (r0 :: rest) |}
+     (o_cols out).
+Proof. exact pxp_peptide_column. Qed.
+Print Assumptions C20_peptide_column.
+
+Theorem C20_suffix_equal : forall md sfx b lo hi p1 p2,
+  md (p_exp p1) (p_calc p1) = md (p_exp p2) (p_calc p2) ->
+  exists s, px_pep_out md sfx (Some b) lo hi p1 = p_peptide p1 ++ px_tag s /\
+            px_pep_out md sfx (Some b) lo hi p2 = p_peptide p2 ++ px_tag s.
+Proof. exact pxp_suffix_equal. Qed.
+Print Assumptions C20_suffix_equal.
+
+(* in terms of the document: the modification insertion of the original property first, the suffix after *)
+Theorem C20_read_table_peptide : forall num lg md mz rp sfx prefix files excl bin to_df rows out,
+  px_read_table num lg md mz rp sfx prefix files excl bin to_df = Ok (rows, out) ->
+  exists lo hi cells,
+    In {| c_name := px_N_PEPTIDE; c_kind := KText; c_role := RMeta; c_logged := false; c_cells := cells |} (o_cols out) /\
+    Forall2 (fun (c : px_ctx) cell =>
+               let '(r, s, h) := c in
+               exists e k, s_mass s = Some e /\ h_calc h = Some k /\
+                 cell = CText (px_peptide (h_peptide h) (h_modinfos h)
+                               ++ match bin with None => [] | Some b => px_tag (sfx b lo hi (md e k)) end))
+            (px_hits_of files) cells.
+Proof. exact pxp_read_table_peptide. Qed.
+Print Assumptions C20_read_table_peptide.
+
+(* ---- _log_features: whole columns only, and exactly when the rule holds of the column's values ---- *)
+Theorem C20_log_whole_column : forall lg vs b cells,
+  px_transform lg vs = Ok (b, cells) ->
+  length cells = length vs /\ (b = false -> cells = map px_nv_id vs) /\
+  (b = true -> px_sci_cond vs = true \/ (px_plain_cond vs = true /\
+               exists low, cells = map (px_plain_log_cell lg low) vs)).
+Proof. exact pxp_transform_whole. Qed.
+Print Assumptions C20_log_whole_column.
+
+Theorem C20_log_decision : forall lg vs b cells,
+  px_transform lg vs = Ok (b, cells) ->
+  (px_sci_cond vs = false -> (b = true <-> px_plain_rule vs)) /\
+  (px_sci_cond vs = true ->
+     forall rps, px_mapM px_nv_parts vs = Ok rps -> Forall (fun x => ~ (fst x == 0)%Q) rps ->
+       (b = true <-> exists hi lo, In hi (map snd rps) /\ In lo (map snd rps) /\ 4 <= hi - lo) /\
+       (b = true -> cells = map (px_sci_log_cell lg) rps)).
+Proof. exact pxp_transform_decision. Qed.
+Print Assumptions C20_log_decision.
+
+Theorem C20_log_sci_cond : forall vs,
+  px_sci_cond vs = true <->
+  Exists (fun n => px_nv_e n = true) vs /\
+  Forall (fun n => exists e v parts, n = NVval e v parts /\ (0 < v)%Q) vs.
+Proof. exact pxp_sci_cond_iff. Qed.
+Print Assumptions C20_log_sci_cond.
+
+Theorem C20_log_plain_rule : forall vs, px_plain_cond vs = true <-> px_plain_rule vs.
+Proof. exact pxp_plain_cond_iff. Qed.
+Print Assumptions C20_log_plain_rule.
+
+(* ---- option independence ---- *)
+Theorem C20_bin_independent : forall num lg md mz rp sfx excl bin bin' to_df rows o0,
+  px_table num lg md mz rp sfx excl bin to_df rows = Ok o0 ->
+  exists o1, px_table num lg md mz rp sfx excl bin' to_df rows = Ok o1 /\
+             Forall2 px_col_same_but_peptide (o_cols o0) (o_cols o1) /\
+             (to_df = true -> o_roles o0 = None /\ o_roles o1 = None) /\
+             (to_df = false -> o_roles o0 = Some (px_dataset_roles (o_cols o0)) /\
+                               o_roles o1 = Some (px_dataset_roles (o_cols o0))).
+Proof. exact pxp_bin_independent. Qed.
+Print Assumptions C20_bin_independent.
+
+Theorem C20_to_df_independent : forall num lg md mz rp sfx excl bin rows o',
+  px_table num lg md mz rp sfx excl bin false rows = Ok o' <->
+  exists o, px_table num lg md mz rp sfx excl bin true rows = Ok o /\ o_roles o = None /\
+            existsb p_label rows = true /\ forallb p_label rows = false /\
+            o' = {| o_cols := o_cols o; o_roles := Some (px_dataset_roles (o_cols o)) |}.
+Proof. exact pxp_to_df_independent. Qed.
+Print Assumptions C20_to_df_independent.
+
+Theorem C20_dataset_roles : forall num lg md mz rp sfx excl bin rows out,
+  px_table num lg md mz rp sfx excl bin false rows = Ok out ->
+  o_roles out = Some {| ro_target := px_N_LABEL; ro_spectrum := [px_N_FILE; px_N_SCAN; px_N_RT];
+                        ro_peptide := px_N_PEPTIDE; ro_protein := px_N_PROTEINS;
+                        ro_features := px_feature_names (o_cols out);
+                        ro_filename := px_N_FILE; ro_scan := px_N_SCAN; ro_calcmass := px_N_CALC;
+                        ro_expmass := px_N_EXP; ro_rt := px_N_RT; ro_charge := px_N_CHARGE |}.
+Proof. exact pxp_dataset_roles. Qed.
+Print Assumptions C20_dataset_roles.
+
+Theorem C20_exclude_independent : forall num lg md mz rp sfx e1 e2 bin to_df rows o1 o2,
+  px_table num lg md mz rp sfx e1 bin to_df rows = Ok o1 ->
+  px_table num lg md mz rp sfx e2 bin to_df rows = Ok o2 ->
+  Forall2 (fun c1 c2 => c_name c1 = c_name c2 /\
+                        (px_is_feature e1 (c_name c1) = px_is_feature e2 (c_name c1) -> c1 = c2))
+          (o_cols o1) (o_cols o2).
+Proof. exact pxp_exclude_independent. Qed.
+Print Assumptions C20_exclude_independent.
+
+Theorem C20_exclude_noop : forall excl extra n,
+  (forall x, In x extra -> In x px_META9 \/ In x excl) ->
+  px_is_feature (excl ++ extra) n = px_is_feature excl n.
+Proof. exact pxp_is_feature_add_noop. Qed.
+Print Assumptions C20_exclude_noop.
+
+(* ---- errors ---- *)
+(* Percolator scores (excluded or not), malformed files, ...: whatever px_read rejects stays rejected *)
+Theorem C20_table_rejects_read : forall num lg md mz rp sfx prefix files excl bin to_df e,
+  px_read prefix files = Err e -> px_read_table num lg md mz rp sfx prefix files excl bin to_df = Err e.
+Proof. exact pxp_read_table_err. Qed.
+Print Assumptions C20_table_rejects_read.
+
+Theorem C20_read_table_ok : forall num lg md mz rp sfx prefix files excl bin to_df rows out,
+  px_read_table num lg md mz rp sfx prefix files excl bin to_df = Ok (rows, out) <->
+  px_read prefix files = Ok rows /\ px_table num lg md mz rp sfx excl bin to_df rows = Ok out.
+Proof. exact pxp_read_table_ok. Qed.
+Print Assumptions C20_read_table_ok.
+
+Theorem C20_nonnumeric_rejected : forall num lg md mz rp sfx excl bin to_df rows p n t,
+  In p rows -> px_assoc n (p_scores p) = Some t -> ~ In n px_RESERVED12 -> ~ In n excl ->
+  num (px_lower t) = None ->
+  exists e, px_table num lg md mz rp sfx excl bin to_df rows = Err e.
+Proof. exact pxp_table_nonnumeric. Qed.
+Print Assumptions C20_nonnumeric_rejected.
+
+Theorem C20_dataset_needs_both_labels : forall num lg md mz rp sfx excl bin rows,
+  (forall p, In p rows -> p_label p = true) \/ (forall p, In p rows -> p_label p = false) ->
+  exists e, px_table num lg md mz rp sfx excl bin false rows = Err e.
+Proof. exact pxp_table_dataset_labels. Qed.
+Print Assumptions C20_dataset_needs_both_labels.
+
+(* the calls that succeed: every non-excluded score text converts (px_text_ok), and to_df=False sees both labels;
+   the premise on rp is the contract of the repr oracle *)
+Theorem C20_table_accepts : forall num lg md mz rp sfx,
+  (forall x, (0 < x)%Q -> ~ (fst (rp x) == 0)%Q) ->
+  forall excl bin to_df rows,
+  rows <> [] ->
+  (forall p n t, In p rows -> px_assoc n (p_scores p) = Some t -> ~ In n excl -> px_text_ok num t) ->
+  to_df = true \/ (existsb p_label rows = true /\ forallb p_label rows = false) ->
+  exists out, px_table num lg md mz rp sfx excl bin to_df rows = Ok out.
+Proof. exact pxp_table_accepts. Qed.
+Print Assumptions C20_table_accepts.
+
+(* ====================================================================== *)
 (* Non-vacuity and sanity examples                                        *)
 (* ====================================================================== *)
 (* "rev_", "QATARSK", "357.2579", "1.5" *)
@@ -193,3 +480,129 @@ Example C20_ex_rejects :
   /\ px_read ex_prefix [{| f_runs := []; f_broken := false |}] = Err EKey
   /\ px_read ex_prefix [] = Err EValue.
 Proof. vm_compute. repeat split; reflexivity. Qed.
+
+(* ====================================================================== *)
+(* R2.20 examples: a concrete two-hit document through the whole reader    *)
+(* ====================================================================== *)
+(* two spectra (charges 3 and 2), one hit each; scores x = "1e-5" / "0.1" and y = "N/A" / "2" *)
+Definition ex2_x1 : str := [49;101;45;53].      (* "1e-5" *)
+Definition ex2_x2 : str := [48;46;49].          (* "0.1" *)
+Definition ex2_NA : str := [78;47;65].          (* "N/A" *)
+Definition ex2_two : str := [50].               (* "2" *)
+Definition ex2_X : str := [120].                (* "x" *)
+Definition ex2_Y : str := [121].                (* "y" *)
+Definition ex2_hitA : px_hit :=
+  {| h_peptide := ex_pep; h_protein := ex_p1; h_calc := Some 9895821; h_mc := Some 1; h_ntt := None;
+     h_nmp := Some 100; h_modinfos := [[(2, ex_m2)]]; h_alts := [];
+     h_scores := [(ex2_X, ex2_x1); (ex2_Y, ex2_NA)] |}.
+Definition ex2_hitB : px_hit :=
+  {| h_peptide := ex_pep; h_protein := ex_p2; h_calc := Some 9895709; h_mc := Some 0; h_ntt := None;
+     h_nmp := None; h_modinfos := []; h_alts := []; h_scores := [(ex2_Y, ex2_two); (ex2_X, ex2_x2)] |}.
+Definition ex2_files : list px_file :=
+  [{| f_runs := [{| r_base := [102]; r_raw := Some [46;109;122]; r_spectra :=
+        [{| s_scan := Some 8; s_charge := Some 3; s_rt := Some 1233720; s_mass := Some 9896051; s_results := [[ex2_hitA]] |};
+         {| s_scan := Some 9; s_charge := Some 2; s_rt := Some 1233820; s_mass := Some 9896051; s_results := [[ex2_hitB]] |}] |}];
+      f_broken := false |}].
+
+(* one admissible choice of the oracles (exact arithmetic where a formula exists, tables otherwise) *)
+Definition ex2_num (s : str) : option Q :=
+  if str_eqb s ex2_x1 then Some (1 # 100000) else if str_eqb s [49] then Some 1%Q
+  else if str_eqb s ex2_x2 then Some (1 # 10) else if str_eqb s ex2_two then Some 2%Q else None.
+Definition ex2_lg (x : Q) : Q :=
+  (if Qeq_bool x 1 then 0 else if Qeq_bool x (1 # 10) then -1 else if Qeq_bool x 100 then 2 else 0)%Q.
+Definition ex2_md (e c : Z) : Q := (inject_Z (e - c)%Z / 10000)%Q.
+Definition ex2_mz (e c z : Z) : Q := px_qabs (inject_Z (e - c)%Z / inject_Z (10000 * z)%Z)%Q.
+Definition ex2_rp (x : Q) : Q * Z := (x, 0).
+Definition ex2_sfx (b lo hi x : Q) : str :=
+  if Qle_bool x (3 # 100) then [48;46;48;50;53] else [48;46;48;51;53].      (* "0.025" / "0.035" *)
+Definition ex2_read := px_read_table ex2_num ex2_lg ex2_md ex2_mz ex2_rp ex2_sfx ex_prefix ex2_files.
+
+(* y ("N/A") is no number: ValueError, unless it is excluded *)
+Example C20_ex2_nonnumeric : ex2_read [] None true = Err EValue.
+Proof. vm_compute. reflexivity. Qed.
+
+(* exclude_features = "y": column names and order, dtypes, roles; x is transformed as a whole (exponents -5 and 0:
+   log10(1) - 5 and log10(0.1) + 0); y keeps its text; the one-hot columns in numeric order, one per row *)
+Example C20_ex2_table :
+  match ex2_read [ex2_Y] None true with
+  | Ok (_, out) =>
+      map c_name (o_cols out)
+      = px_META9 ++ [px_N_MC; px_N_NMP; ex2_X; ex2_Y; px_N_MDIFF; px_N_MZDIFF; px_N_CHARGE_ ++ [50]; px_N_CHARGE_ ++ [51]]
+      /\ map c_role (o_cols out)
+         = [RMeta; RMeta; RMeta; RMeta; RMeta; RMeta; RMeta; RMeta; RMeta;
+            RFeature; RFeature; RFeature; RMeta; RFeature; RFeature; RFeature; RFeature]
+      /\ map c_kind (o_cols out)
+         = [KText; KInt; KInt; KFloat; KFloat; KFloat; KText; KText; KBool;
+            KFloat; KFloat; KFloat; KText; KFloat; KFloat; KFloat; KFloat]
+      /\ map c_name (filter c_logged (o_cols out)) = [ex2_X]
+      /\ In {| c_name := ex2_X; c_kind := KFloat; c_role := RFeature; c_logged := true;
+               c_cells := [CNum (0 + inject_Z (-5)%Z)%Q; CNum (-1 + inject_Z 0%Z)%Q] |} (o_cols out)
+      /\ In {| c_name := ex2_Y; c_kind := KText; c_role := RMeta; c_logged := false;
+               c_cells := [CText ex2_NA; CText ex2_two] |} (o_cols out)
+      /\ In {| c_name := px_N_CHARGE_ ++ [50]; c_kind := KFloat; c_role := RFeature; c_logged := false;
+               c_cells := [CNum 0%Q; CNum 1%Q] |} (o_cols out)
+      /\ In {| c_name := px_N_CHARGE_ ++ [51]; c_kind := KFloat; c_role := RFeature; c_logged := false;
+               c_cells := [CNum 1%Q; CNum 0%Q] |} (o_cols out)
+      /\ o_roles out = None
+  | Err _ => False
+  end.
+Proof. vm_compute. repeat split; try reflexivity; tauto. Qed.
+
+(* bin size 0.01 and to_df=False: the suffix follows the inserted modification ("QA[1.5]TARSK" ++ "[0.025]"),
+   the second row (difference 0.0342) gets the other bin; the dataset roles *)
+Example C20_ex2_dataset :
+  match ex2_read [ex2_Y] (Some (1 # 100)) false with
+  | Ok (rows, out) =>
+      In {| c_name := px_N_PEPTIDE; c_kind := KText; c_role := RMeta; c_logged := false;
+            c_cells := [CText ([81;65;91;49;46;53;93;84;65;82;83;75] ++ [91;48;46;48;50;53;93]);
+                        CText (ex_pep ++ [91;48;46;48;51;53;93])] |} (o_cols out)
+      /\ map p_peptide rows = [[81;65;91;49;46;53;93;84;65;82;83;75]; ex_pep]
+      /\ option_map ro_features (o_roles out)
+         = Some [px_N_MC; px_N_NMP; ex2_X; px_N_MDIFF; px_N_MZDIFF; px_N_CHARGE_ ++ [50]; px_N_CHARGE_ ++ [51]]
+      /\ option_map ro_calcmass (o_roles out) = Some px_N_CALC
+      /\ option_map ro_spectrum (o_roles out) = Some [px_N_FILE; px_N_SCAN; px_N_RT]
+  | Err _ => False
+  end.
+Proof. vm_compute. repeat split; try reflexivity; tauto. Qed.
+
+(* the bin size changes the peptide column only (instance of C20_bin_independent) *)
+Example C20_ex2_bin_only_peptide :
+  match ex2_read [ex2_Y] None true, ex2_read [ex2_Y] (Some (1 # 100)) true with
+  | Ok (_, o0), Ok (_, o1) =>
+      filter (fun c => negb (str_eqb (c_name c) px_N_PEPTIDE)) (o_cols o0)
+      = filter (fun c => negb (str_eqb (c_name c) px_N_PEPTIDE)) (o_cols o1)
+  | _, _ => False
+  end.
+Proof. vm_compute. reflexivity. Qed.
+
+(* only decoys or only targets: to_df=False is refused, to_df=True is not *)
+Example C20_ex2_one_label :
+  px_read_table ex2_num ex2_lg ex2_md ex2_mz ex2_rp ex2_sfx [120;120] ex2_files [ex2_Y] None false = Err EValue
+  /\ exists r, px_read_table ex2_num ex2_lg ex2_md ex2_mz ex2_rp ex2_sfx [120;120] ex2_files [ex2_Y] None true = Ok r.
+Proof. split; [vm_compute; reflexivity | eexists; vm_compute; reflexivity]. Qed.
+
+(* the hypotheses of C20_table_accepts are satisfiable (rows of the example, y excluded) *)
+Example C20_ex2_accepts_hyp :
+  (forall x, (0 < x)%Q -> ~ (fst (ex2_rp x) == 0)%Q)
+  /\ px_text_ok ex2_num ex2_x1 /\ px_text_ok ex2_num ex2_x2 /\ ~ px_text_ok ex2_num ex2_NA.
+Proof.
+  split; [intros x Hx Hz; cbn [ex2_rp fst] in Hz; rewrite Hz in Hx; exact (Qlt_irrefl _ Hx)|].
+  split; [exists (1 # 100000); split; [reflexivity|]; exists 1%Q, (-5)%Z; repeat split; intros _ H; discriminate|].
+  split; [exists (1 # 10); split; reflexivity|].
+  intros (v & Hv & _). vm_compute in Hv. discriminate.
+Qed.
+
+(* str(int) for the charge column names *)
+Example C20_ex_charge_names :
+  px_charge_name 2 = px_N_CHARGE_ ++ [50] /\ px_charge_name 10 = px_N_CHARGE_ ++ [49;48] /\
+  px_charge_name 0 = px_N_CHARGE_ ++ [48] /\ px_charge_name (-1) = px_N_CHARGE_ ++ [45;49] /\
+  px_charges [] = [].
+Proof. vm_compute. repeat split; reflexivity. Qed.
+
+(* the threshold of the ratio test: 11000 / 1.1 in doubles is 10000 (the exact quotient of the two doubles is
+   below 10000 by less than 2^-40): the column IS transformed; an exact-rational test against 10000 would say no *)
+Example C20_ex_ratio_threshold :
+  let a := (11000 # 1)%Q in
+  let b := (2476979795053773 # 2251799813685248)%Q in          (* the double nearest to 1.1 *)
+  Qle_bool (px_RATIO * b) a = true /\ Qle_bool (10000 * b) a = false.
+Proof. vm_compute. split; reflexivity. Qed.
